@@ -27,6 +27,7 @@ use vcore::{CaseCtx, Family, PropSpec, Tier, Violation};
 pub const N_USERS: usize = 3;
 pub const DENOM: &str = "ustake";
 pub const OTHER_DENOM: &str = "uother";
+pub const NEAR_DENOM: &str = "USTAKE";
 /// every user holds this much of each token that is *not* the stake token
 pub const SIDE_FUNDS: u128 = 1_000_000;
 pub const MAX_FUNDS: u128 = 1u128 << 127;
@@ -70,6 +71,9 @@ pub struct Cfg {
     pub period: Period,
     /// stake-token balance of each user at the start (cw20: clamped so that the sum fits u128)
     pub funds: Vec<N>,
+    /// the "other" native denom of foreign attempts differs from the stake denom only in letter case
+    #[serde(default)]
+    pub near_denom: bool,
 }
 
 #[derive(Clone, Debug, Serialize, Deserialize, PartialEq)]
@@ -253,7 +257,23 @@ fn who(f: fn(u16) -> Who) -> BoxedStrategy<Who> {
 /// bond / partial unbond / early claim / advance to the release date -1,0,+1 / claim cycle
 fn op_group() -> BoxedStrategy<Vec<Op>> {
     let one = |s: BoxedStrategy<Op>| s.prop_map(|o| vec![o]).boxed();
+    // one staker piles up many pending claims (partial unbonds spread over blocks), then claims around a release date
+    let pile = (user(), 8usize..26, -1i8..=1)
+        .prop_map(|(u, n, d)| {
+            let mut g = vec![Op::Bond { by: Who::User(u), amt: Amt::Abs(N(5000)) }];
+            for i in 0..n {
+                g.push(Op::Unbond { by: Who::User(u), amt: Amt::Abs(N(1 + i as u128 % 3)) });
+                g.push(Op::Advance { blocks: 1 + (i as u16 % 2), secs: 5 });
+            }
+            g.push(Op::AdvanceToRelease { by: Who::User(u), d });
+            g.push(Op::Claim { by: Who::User(u) });
+            g.push(Op::Advance { blocks: 3, secs: 15 });
+            g.push(Op::Claim { by: Who::User(u) });
+            g
+        })
+        .boxed();
     prop_oneof![
+        1 => pile,
         28 => one((who(Who::WithFunds), bond_amt()).prop_map(|(by, amt)| Op::Bond { by, amt }).boxed()),
         20 => one((who(Who::WithStake), unbond_amt()).prop_map(|(by, amt)| Op::Unbond { by, amt }).boxed()),
         16 => one(who(Who::WithClaims).prop_map(|by| Op::Claim { by }).boxed()),
@@ -288,8 +308,9 @@ pub fn case_strategy(_prop: &str, tier: Tier) -> BoxedStrategy<Case> {
         min_bond_strategy(),
         period_strategy(),
         proptest::collection::vec(funds_strategy().prop_map(N), N_USERS),
+        proptest::bool::weighted(0.4),
     )
-        .prop_map(|(cw20, tpw, min_bond, period, funds)| Cfg { cw20, tpw: N(tpw), min_bond, period, funds });
+        .prop_map(|(cw20, tpw, min_bond, period, funds, near_denom)| Cfg { cw20, tpw: N(tpw), min_bond, period, funds, near_denom });
     let ops = proptest::collection::vec(op_group(), 0..=max_ops).prop_map(|g| g.into_iter().flatten().collect::<Vec<_>>());
     (cfg, ops).prop_map(|(cfg, ops)| Case { cfg, ops }).boxed()
 }
@@ -398,6 +419,8 @@ struct World {
     tpw: u128,
     min_bond: u128,
     period: Period,
+    /// the foreign native denom of this case
+    other_denom: &'static str,
 }
 
 fn root_msg(e: &anyhow::Error) -> String {
@@ -470,13 +493,13 @@ impl World {
             let c = self.q::<ClaimsResponse>(&self.stake, &QueryMsg::Claims { address: u.to_string() })?.claims;
             claims.push(c.into_iter().map(|c| (c.amount.u128(), c.release_at)).collect());
             bal.push(self.token_balance(u)?);
-            side.push(self.native_balance(u, OTHER_DENOM)?);
+            side.push(self.native_balance(u, self.other_denom)?);
             side.push(self.cw20_balance(&self.other20, u)?);
             if self.main20.is_some() {
                 side.push(self.native_balance(u, DENOM)?);
             }
         }
-        side.push(self.native_balance(&self.stake, OTHER_DENOM)?);
+        side.push(self.native_balance(&self.stake, self.other_denom)?);
         side.push(self.cw20_balance(&self.other20, &self.stake)?);
         if self.main20.is_some() {
             side.push(self.native_balance(&self.stake, DENOM)?);
@@ -590,13 +613,15 @@ fn build_world(cfg: &Cfg, ctx: &mut CaseCtx) -> Result<Option<World>, Violation>
         }
     }
 
+    // the foreign native denom: an unrelated one, or the stake denom in upper case
+    let other_denom: &'static str = if cfg.near_denom { NEAR_DENOM } else { OTHER_DENOM };
     {
         let users = users.clone();
         let funds = funds.clone();
         let cw20 = cfg.cw20;
         app.init_modules(|router, _, storage| {
             for (u, f) in users.iter().zip(funds.iter()) {
-                let mut coins = vec![coin(SIDE_FUNDS, OTHER_DENOM)];
+                let mut coins = vec![coin(SIDE_FUNDS, other_denom)];
                 let native = if cw20 { SIDE_FUNDS } else { *f };
                 if native > 0 {
                     coins.push(coin(native, DENOM));
@@ -654,7 +679,7 @@ fn build_world(cfg: &Cfg, ctx: &mut CaseCtx) -> Result<Option<World>, Violation>
     if let Some(m) = &main20 {
         watched.push(m.clone());
     }
-    Ok(Some(World { app, users, watched, stake, main20, other20, tpw, min_bond, period: cfg.period.clone() }))
+    Ok(Some(World { app, users, watched, stake, main20, other20, tpw, min_bond, period: cfg.period.clone(), other_denom }))
 }
 
 /// claims of one user grouped by release date (zero totals dropped): the ledger is
@@ -881,8 +906,8 @@ pub fn run_case(prop: &str, case: &Case, ctx: &mut CaseCtx) -> Result<(), Violat
                 };
                 ctx.count(&format!("foreign_{:?}", eff));
                 let r = match eff {
-                    Foreign::WrongDenom => w.exec(&user, &stake, &ExecuteMsg::Bond {}, &[coin(a, OTHER_DENOM)]),
-                    Foreign::TwoCoins => w.exec(&user, &stake, &ExecuteMsg::Bond {}, &[coin(a.min(pre.bal[u]), DENOM), coin(a, OTHER_DENOM)]),
+                    Foreign::WrongDenom => w.exec(&user, &stake, &ExecuteMsg::Bond {}, &[coin(a, w.other_denom)]),
+                    Foreign::TwoCoins => w.exec(&user, &stake, &ExecuteMsg::Bond {}, &[coin(a.min(pre.bal[u]), DENOM), coin(a, w.other_denom)]),
                     Foreign::OtherCw20 => w.exec(&user, &other20, &Cw20ExecuteMsg::Send { contract: stake.to_string(), amount: Uint128::new(a), msg: bond_payload }, &[]),
                     Foreign::WrongKind => {
                         if native_cfg {
